@@ -20,7 +20,7 @@ RULE = ("f-string structures (literal text with {{ }} escapes, backslash and \\N
         "malformed fields. Non-trivial = a field with >= 2 of {conversion, debug, spec, layout "
         "whitespace/comment} or a nested spec field; distinct by rendered Hy text.")
 FLOOR = {"quick": 2000, "thorough": 2000}
-BUDGET = {"quick": 30, "thorough": 480}
+BUDGET = {"quick": 25, "thorough": 480}
 CASE_TIMEOUT = 20
 NEEDS_EVENTS = True
 ANCHORS = ["hy.reader.hy_reader:HyReader.read_fcomponent", "hy.reader.hy_reader:HyReader.read_fcomponents_until",
@@ -154,7 +154,7 @@ ALIGN = ["<", ">", "^", "="]
 FILLS = ["*", "_", " ", "x", "0", "é", "~", "!", ":", "."]
 
 
-def gen_spec(rng, ty, depth):
+def gen_spec(rng, ty, depth, mode="f"):
     """Parts: ("lit", hy, py) | ("field", field)."""
     parts = []
 
@@ -211,13 +211,13 @@ def gen_spec(rng, ty, depth):
         lit(rng.choice(SPEC_LIT[ty]) if rng.random() < 0.3 else
             {"int": rng.choice("dxXob"), "float": rng.choice("feEgG%"), "str": "s",
              "complex": rng.choice("feg")}[ty])
-    if rng.random() < 0.04:
+    if mode == "f" and rng.random() < 0.04:
         al = rng.choice("<>^")                                       # named escape as fill character
         parts[:0] = [["lit", "\\N{BULLET}", "\\N{BULLET}"], ["lit", al, al]]
     return parts
 
 
-def gen_field(rng, depth=0):
+def gen_field(rng, depth=0, mode="f"):
     e = list(rng.choice(EXPRS))
     conv = rng.choice([None, None, None, "r", "s", "a"])
     ty = e[2] if conv is None else "str"
@@ -226,7 +226,7 @@ def gen_field(rng, depth=0):
         symlike = not e[0].endswith('"')
         debug = [rng.choice(["", " ", "  ", "\t"]), rng.choice([" ", "  ", "\t"] if symlike else ["", " "]),
                  rng.choice(["", " ", "  "])]
-    spec = gen_spec(rng, ty, depth + 1) if rng.random() < 0.55 else None
+    spec = gen_spec(rng, ty, depth + 1, mode) if rng.random() < 0.55 else None
     if debug is not None and conv is None and spec is None:
         pass        # implicit !r
     ws = [rng.choice(["", "", " ", "  ", "\n"]), rng.choice(["", " ", "  "]), rng.choice(["", "", " "])]
@@ -336,7 +336,7 @@ def cases(seed, tier, shard, nshards):
             lit = gen_literal(rng, mode)
             if lit:
                 struct["parts"].append(["lit", lit])
-            struct["parts"].append(["field", gen_field(rng)])
+            struct["parts"].append(["field", gen_field(rng, 0, mode)])
         lit = gen_literal(rng, mode)
         if mode == "rf":
             while lit and lit[-1][1].endswith("\\"):
@@ -404,9 +404,8 @@ def _lits(struct):
 
 
 def _has_bs_n_brace(struct):
-    if struct["mode"] != "f":
-        return False
-    return any(re.search(r"(?<!\\)(\\\\)+N\{", "".join(a[0] for a in lit)) for lit in _lits(struct))
+    """An escaped backslash directly followed by N{ in a non-raw f-string."""
+    return struct["mode"] == "f" and bool(re.search(r"(?<!\\)(\\\\)+N\{", render(struct, "hy")))
 
 
 def _n_bs_n_brace(struct):
